@@ -13,7 +13,7 @@ META = {
     "note": "assumes snakeoil.compatibility.cmp(a,b) is the three-way comparison (trusted base); regex facts come from the stdlib regex parser applied to the literal patterns",
 }
 META["technique"] += "; " + 'effect analysis (no in-place write to shared objects) on ver_cmp and the comparison methods'
-META["level"] += " (R8) every return of ver_cmp is -1, 0, 1 or a cmp(...) result, because _VersionMatch.match looks the result up in a tuple over (-1, 0, 1)." +  " Added after the second round of independent changes: " + '(R6) ver_cmp, the CPV/Revision comparison methods and _VersionMatch.match write in place only to objects they created themselves (no memoised list, parameter or module table is edited by a comparison).'
+META["level"] += " (R9) every return inside a component loop of ver_cmp is under a test." + " (R8) every return of ver_cmp is -1, 0, 1 or a cmp(...) result, because _VersionMatch.match looks the result up in a tuple over (-1, 0, 1)." +  " Added after the second round of independent changes: " + '(R6) ver_cmp, the CPV/Revision comparison methods and _VersionMatch.match write in place only to objects they created themselves (no memoised list, parameter or module table is edited by a comparison).'
 META["technique"] += "; " + 'generic pack G on the anchored files (optional-flag shift, closures outliving a loop iteration, single-pass iterables consumed twice, %-templates built from data, in-place writes to class-level / memoised objects, generators mutating what they yielded, memo keys that are projections)'
 
 PMS_SUFFIXES = ("alpha", "beta", "pre", "rc", "p")
@@ -322,6 +322,19 @@ def run(ctx):
     else:
         ctx.ob("R8", vm, "_VersionMatch.match no longer tests the comparator's result by membership: any correctly signed result is acceptable")
 
+    # ---- R9 a component loop only returns once a component decided ---------------------------------------------------
+    # every loop of ver_cmp walks pairs of components; a `return` that is not under a test inside the loop body ends the
+    # comparison at the first pair whatever its outcome (0 for `01` vs `1`), and everything after it is never looked at
+    n9 = 0
+    for loop in [n for n in A.body_walk(ver_cmp.node) if isinstance(n, (ast.For, ast.While))]:
+        for r in [x for st_ in loop.body for x in ast.walk(st_) if isinstance(x, ast.Return)]:
+            n9 += 1
+            guarded = any(isinstance(p_, (ast.If, ast.Try, ast.Match)) for p_ in A.parents(r) if A.contains_node(loop, p_) and p_ is not loop)
+            ctx.check("R9", ver_cmp, guarded, f"loop-return-unconditional:{A.unparse(r)[:40]}", f"`{A.unparse(r)}` inside the component loop is taken only under a test",
+                      f"`{A.unparse(r)}` ends the loop over version components unconditionally at the first pair: when that pair compares equal (spelled differently, e.g. `01` vs `1`, "
+                      f"`1.010` vs `1.01`) the result is 0 although later components, the letter, suffixes or the revision differ", node=r)
+    ctx.require(n9 >= 3, f"ver_cmp: only {n9} returns inside component loops; idiom changed")
+
 MUTANTS = [
     {"name": "suffix-order-swap", "file": "src/pkgcore/ebuild/cpv.py", "old": '"pre": -2, "p": 1, "alpha": -4, "beta": -3, "rc": -1', "new": '"pre": -1, "p": 1, "alpha": -4, "beta": -3, "rc": -2', "rule": "R1"},
     {"name": "cmp-swapped-end-of-list", "file": "src/pkgcore/ebuild/cpv.py", "old": "                return cmp(val, 0)\n", "new": "                return cmp(0, val)\n", "rule": "R5"},
@@ -336,6 +349,9 @@ MUTANTS += [
 ]
 MUTANTS += [
     {"name": "letter-difference-instead-of-sign", "file": "src/pkgcore/ebuild/cpv.py", "old": "            return cmp(letters[0], letters[1])\n", "new": "            return letters[0] - letters[1]\n", "rule": "R8"},
+]
+MUTANTS += [
+    {"name": "component-loop-returns-unconditionally", "file": "src/pkgcore/ebuild/cpv.py", "old": "            c = cmp(v1, v2)\n            if c:\n                return c\n", "new": "            return cmp(v1, v2)\n", "rule": "R9"},
 ]
 TWINS = [
     {"name": "sign-through-a-local", "file": "src/pkgcore/ebuild/cpv.py", "old": "            return cmp(letters[0], letters[1])\n", "new": "            res = cmp(letters[0], letters[1])\n            return res\n"},
